@@ -15,8 +15,9 @@ def conc_part(res):
                     ("put", "rem", "uput", "get"), False, 120 if res.tier == "quick" else 800,
                     ("preempt1",) if res.tier == "quick" else ("preempt1", "preempt2", "pct"), n, vermon=True,
                     label="version_word_trace_monitor")
-    conc.conc_phase(res, "c17", ("deadlock", "coherent"), ["collapse"], (), False, 200 if res.tier == "quick" else 1200,
-                    ("preempt1",) if res.tier == "quick" else ("preempt1", "preempt2", "pct"), 3 if res.tier == "quick" else 10,
+    conc.conc_phase(res, "c17", ("deadlock", "coherent"), ["collapse"], (), False, 1600 if res.tier == "quick" else 2500,
+                    ("preempt1", "race2") if res.tier == "quick" else ("preempt1", "race2", "preempt2", "pct"),
+                    3 if res.tier == "quick" else 10,
                     gen=conc.gen_collapse, vermon=True, label="version_word_trace_monitor_collapse")
 
 
